@@ -8,11 +8,16 @@ import (
 	"bufio"
 	"fmt"
 	"io"
+	"os"
 	"os/exec"
+	"path/filepath"
+	"runtime"
 	"strconv"
 	"strings"
 	"time"
 )
+
+var slowLog = os.Getenv("GOSMT_SLOW") != ""
 
 type Result int
 
@@ -137,7 +142,7 @@ func (s *Solver) define(t *Term, sb *strings.Builder) {
 		s.defined[x.ID] = true
 		switch x.Op {
 		case OpVar:
-			fmt.Fprintf(sb, "(declare-const %s %s)\n", smtName(x.Name), sortName(x.W))
+			fmt.Fprintf(sb, "(declare-const %s %s)\n", varSMT(x), sortName(x.W))
 		case OpUF:
 			if !s.declUF[x.Name] {
 				s.declUF[x.Name] = true
@@ -160,8 +165,23 @@ func (s *Solver) define(t *Term, sb *strings.Builder) {
 // answer is sat, the values of all free variables are returned.
 func (s *Solver) Check(conj []*Term, wantModel bool) (Result, map[string]uint64) {
 	t0 := time.Now()
-	defer func() { s.Time += time.Since(t0) }()
+	defer func() {
+		d := time.Since(t0)
+		s.Time += d
+		if slowLog && d > 40*time.Millisecond && s.Queries%7 == 0 {
+			os.WriteFile(fmt.Sprintf("/tmp/slowq_%d.smt2", s.Queries), []byte(Script(s.ctx, conj)), 0o644)
+		}
+		if slowLog && d > 100*time.Millisecond {
+			fmt.Fprintf(os.Stderr, "SLOW %v conj=%d dag=%d model=%v\n", d, len(conj), DagSize(conj), wantModel)
+		}
+	}()
 	s.Queries++
+	if slowLog {
+		_, f1, l1, _ := runtime.Caller(1)
+		_, f2, l2, _ := runtime.Caller(2)
+		_, f3, l3, _ := runtime.Caller(3)
+		defer func() { fmt.Fprintf(os.Stderr, "QORIGIN %s:%d<%s:%d<%s:%d\n", filepath.Base(f1), l1, filepath.Base(f2), l2, filepath.Base(f3), l3) }()
+	}
 	s.sinceRestart++
 	if s.sinceRestart > 4000 {
 		s.Restart()
@@ -207,7 +227,7 @@ func (s *Solver) Check(conj []*Term, wantModel bool) (Result, map[string]uint64)
 			var q strings.Builder
 			q.WriteString("(get-value (")
 			for _, v := range vars {
-				q.WriteString(smtName(v.Name) + " ")
+				q.WriteString(varSMT(v) + " ")
 			}
 			q.WriteString("))\n")
 			s.send(q.String())
@@ -289,13 +309,21 @@ func parseValues(txt string, vars []*Term, model map[string]uint64) {
 				next()
 				next()
 				v, _ := strconv.ParseUint(strings.TrimPrefix(bv, "bv"), 10, 64)
-				model[strings.Trim(name, "|")] = v
+				model[modelName(name)] = v
 			}
 		} else {
-			model[strings.Trim(name, "|")] = parseLit(val)
+			model[modelName(name)] = parseLit(val)
 		}
 		next() // )
 	}
+}
+
+func modelName(n string) string {
+	n = strings.Trim(n, "|")
+	if i := strings.LastIndex(n, "!"); i >= 0 {
+		n = n[:i]
+	}
+	return n
 }
 
 func parseLit(v string) uint64 {
